@@ -3,7 +3,9 @@ import json, os
 import seqprop
 from props import _seqplans
 
-THEOREMS = json.load(open(os.path.join(os.path.dirname(__file__), "_theorems.json")))["C15"]
+THEOREMS = {"C15.v": json.load(open(os.path.join(os.path.dirname(__file__), "_theorems.json")))["C15"],
+            # concurrent half: the whole allocator under every interleaving (machine M2)
+            "Conc.v": ['Conc_offline_never_allocated', 'Conc_upper_safe_with_changes']}
 
 
 def run(ctx):
